@@ -64,13 +64,23 @@ IO_LABELS = {
 BUSY_LABELS = ("Attributes.__setitem__", "ZipFile.write")
 BAD_KINDS = ["object_array", "generator", "unpicklable"]
 BAD_POSITIONS = ["first", "middle", "last", "nested", "in_list"]
-N_GRAPHS = {"quick": 6, "thorough": 14}
+N_GRAPHS = {"quick": 6, "thorough": 9}
 WRITE_LABELS = ("Group.create_array", "Group.require_group", "Attributes.__setitem__", "Array.__setitem__", "ZipFile.write")
 
 
 def plan(tier, seed):
     specs = []
+    # cheap, always-run families first: natural failures and write-once onto existing targets
+    for store in STORES:
+        for mode, pre in (("w", "none"), ("o", "complete")):
+            for kind in BAD_KINDS:
+                for pos in BAD_POSITIONS:
+                    specs.append({"fault": "natural", "bad": kind, "position": pos, "store": store, "mode": mode, "pre": pre, "_must_run": True})
     ng = N_GRAPHS[tier]
+    for gi in range(ng):
+        for store in STORES:
+            for pre in WRITE_ONCE_PRE:
+                specs.append({"fault": "write_once", "graph": gi, "store": store, "mode": "w", "pre": pre, "_must_run": True})
     stride = 7 if tier == "quick" else 1
     nres = 3 if tier == "quick" else 12
     ci = 0
@@ -88,13 +98,6 @@ def plan(tier, seed):
                     nr = 2 if (label in BUSY_LABELS and st == 1) else 1
                     for r in range(nr):
                         specs.append({"fault": "io", "label": label, "graph": gi, "store": store, "mode": mode, "pre": pre, "stride": st, "offset": (ci + seed) % st, "residue": r, "nres": nr})
-            for pre in WRITE_ONCE_PRE:
-                specs.append({"fault": "write_once", "graph": gi, "store": store, "mode": "w", "pre": pre})
-    for store in STORES:
-        for mode, pre in (("w", "none"), ("o", "complete")):
-            for kind in BAD_KINDS:
-                for pos in BAD_POSITIONS:
-                    specs.append({"fault": "natural", "bad": kind, "position": pos, "store": store, "mode": mode, "pre": pre})
     return specs
 
 
